@@ -85,6 +85,49 @@ def simplify(plan: dict[str, Any], inv: str, budget: list[int], deadline: float,
                     q = copy.deepcopy(p)
                     q["ops"][i]["recipe"]["rg"]["reps"] = 1
                     out.append(q)
+            if isinstance(r, dict) and r.get("kind") == "hand":
+                if r.get("sums") is not None:
+                    q = copy.deepcopy(p)
+                    q["ops"][i]["recipe"]["sums"] = None
+                    out.append(q)
+                if r.get("nv", 1) > 2:
+                    q = copy.deepcopy(p)
+                    rr = q["ops"][i]["recipe"]
+                    rr["nv"] -= 1
+                    rr["inputs"] = rr["inputs"][:-1]
+                    if rr.get("sums") is not None:
+                        rr["sums"] = rr["sums"][:-1]
+                    out.append(q)
+                for v, ispec in enumerate(r.get("inputs", [])):
+                    if ispec.get("evidence") is not None:
+                        q = copy.deepcopy(p)
+                        del q["ops"][i]["recipe"]["inputs"][v]["evidence"]
+                        out.append(q)
+                if r.get("nc", 1) > 1:
+                    q = copy.deepcopy(p)
+                    q["ops"][i]["recipe"]["nc"] = 1
+                    out.append(q)
+            if op.get("op") == "sample" and op.get("n", 0) > 1000:
+                q = copy.deepcopy(p)
+                q["ops"][i]["n"] = 1000
+                out.append(q)
+            if op.get("op") == "reset_burst" and op.get("count", 0) > 2:
+                q = copy.deepcopy(p)
+                q["ops"][i]["count"] = 2
+                out.append(q)
+        r = p.get("recipe")
+        if isinstance(r, dict) and r.get("kind") == "rg":  # W-C keeps its recipe at the top
+            for fld in ("ni", "ns", "nc"):
+                if r.get(fld, 1) > 1:
+                    q = copy.deepcopy(p)
+                    q["recipe"][fld] = 1
+                    if fld == "ns" and r.get("sp") in ("cp-t", "tucker"):
+                        q["recipe"]["ni"] = 1
+                    out.append(q)
+            if r.get("rg", {}).get("reps", 1) > 1:
+                q = copy.deepcopy(p)
+                q["recipe"]["rg"]["reps"] = 1
+                out.append(q)
         if extra is not None:
             out.extend(extra(p))
         return out
